@@ -271,6 +271,10 @@ async fn run_case(c: &Case) -> Result<Obs, String> {
                 spec.headers.push(("Upgrade".into(), "websocket".into()));
                 spec.headers.push(("Connection".into(), "Upgrade".into()));
             }
+            if steer == "own-original-protocol" {
+                // the field tells the origin how the client arrived: it is the endpoint's to set
+                spec.headers.push(("X-Original-Protocol".into(), "spoofed".into()));
+            }
             let peer: SocketAddr = "198.51.100.7:40000".parse().unwrap();
             let mut obs = Obs::default();
             sys::take_connect_log();
@@ -804,6 +808,9 @@ fn judge(c: &Case, o: &Obs) -> Result<&'static str, Violation> {
             if !req.starts_with(&format!("GET {path} HTTP/1.1\r\n")) || !lower.contains("x-original-protocol: http1") {
                 return Err(mk("C18:rproxy:request-not-translated".into(), format!("origin received {req:?}")));
             }
+            if lower.matches("x-original-protocol:").count() != 1 || lower.contains("spoofed") {
+                return Err(mk("C18:rproxy:original-protocol-from-client".into(), format!("the origin must see one X-Original-Protocol field, the endpoint's; it received {req:?}")));
+            }
             if o.status != Some(101) || !o.headers.iter().any(|(n, v)| n == "x-origin" && v == "yes") {
                 return Err(mk("C18:rproxy:response-head-changed".into(), format!("client received status {:?} headers {:?}", o.status, o.headers)));
             }
@@ -883,7 +890,7 @@ fn cases(tier: Tier) -> Vec<Case> {
     for origin_v6 in [false, true] {
         for allow_private in [false, true] {
             for (path, upgrade) in [("/app/x", true), ("/app", true), ("/app/x", false), ("/other", true), ("/ap", true)] {
-                for steer in ["none", "absolute-uri", "host-header", "slow-client"] {
+                for steer in ["none", "absolute-uri", "host-header", "slow-client", "own-original-protocol"] {
                     v.push(Case::Rproxy { origin_v6, allow_private, path: path.into(), upgrade, steer: steer.into() });
                 }
             }
@@ -935,7 +942,7 @@ pub fn run(tier: Tier) -> i32 {
     rep.add("distinct_nontrivial", r.classes.len() as u64);
     rep.violations(r.violations);
     rep.cov("exhaustive", r.completed);
-    rep.cov("rule", format!("{} sessions: ping (4 methods x 4 markers x credentials) ; speedtest downloads /Nmb.bin for N in {{0,1,2,(99,100),101,2^32,+5,05,1.5,'',-1,1e1}} with prompt and back-pressured clients, uploads with Content-Length in {{absent,0,1,5,120MiB,120MiB+1,2^32,x,-1,1.0}} and bodies shorter/equal/longer, other methods/paths; reverse proxy {{IPv4,IPv6 loopback origin}} x {{policy on,off}} x 5 path/upgrade selections x 3 steering attempts; 5 host-selected scenarios over real TLS; each over HTTP/1.1 and HTTP/2 where the channel permits", cs.len()));
+    rep.cov("rule", format!("{} sessions: ping (4 methods x 4 markers x credentials) ; speedtest downloads /Nmb.bin for N in {{0,1,2,(99,100),101,2^32,+5,05,1.5,'',-1,1e1}} with prompt and back-pressured clients, uploads with Content-Length in {{absent,0,1,5,120MiB,120MiB+1,2^32,x,-1,1.0}} and bodies shorter/equal/longer, other methods/paths; reverse proxy {{IPv4,IPv6 loopback origin}} x {{policy on,off}} x 5 path/upgrade selections x 3 steering attempts + a client-supplied X-Original-Protocol; 5 host-selected scenarios over real TLS; each over HTTP/1.1 and HTTP/2 where the channel permits", cs.len()));
     rep.sample(json!({"case": cs[3]}));
     rep.assume("HTTP/3 variants are not driven; the 100 MiB download and 120 MiB upload run in the thorough tier only");
     super::cq::c18_into(&mut rep, tier);
